@@ -43,8 +43,8 @@ type History struct {
 type Obs struct {
 	ID        int      `json:"id"`
 	Err       string   `json:"err,omitempty"`
-	Current   []int    `json:"current"`  // version served after each step (-1: no certificate, -2: key does not match)
-	Slow      []bool   `json:"slow"`     // the value only settled after the long wait
+	Current   []int    `json:"current"`   // version served after each step (-1: no certificate, -2: key does not match)
+	Slow      []bool   `json:"slow"`      // the value only settled after the long wait
 	Handshake int      `json:"handshake"` // version seen by a real TLS client at the end
 	Events    []string `json:"events"`
 }
